@@ -128,7 +128,7 @@ def run_histories(r, rng, T, make_session, direct, req_cases, on_request=None):
         first_reads = {}
         L = rng.randint(3, 8)
         for step in range(L):
-            kind = rng.choice(["cols", "cond", "slice", "int", "child", "read", "read", "array", "grid", "overlap"])
+            kind = rng.choice(["cols", "cols", "cond", "slice", "int", "child", "read", "read", "array", "grid", "overlap"])
             if kind == "overlap":
                 # reads that overlap in time: one abandoned after its first record, or two consumed in lock step
                 try:
